@@ -674,13 +674,14 @@ func c19Keyish(t types.Type) bool {
 // c19KeySources collects, for a value, the key-generation calls it derives from
 // and the key-typed values of other provenance.
 type c19KeySources struct {
-	gens    map[string]c19Origin
-	foreign []string // definite: key material from a field / global
-	unknown []string // key material of unresolved provenance
-	reqs    map[string]c19Origin
-	anchors bool
-	entries int      // map entries seen on the way
-	opaque  []string // byte / map contents of unresolved provenance
+	gens     map[string]c19Origin
+	foreign  []string // definite: key material from a field / global
+	unknown  []string // key material of unresolved provenance
+	reqs     map[string]c19Origin
+	anchors  bool
+	anchorAt []c19Origin // the CurrentTrustAnchors calls reached
+	entries  int         // map entries seen on the way
+	opaque   []string    // byte / map contents of unresolved provenance
 }
 
 func (x *c19) sourcesOf(v ssa.Value, fr *c19Frame) *c19KeySources {
@@ -701,6 +702,7 @@ func (x *c19) sourcesOf(v ssa.Value, fr *c19Frame) *c19KeySources {
 			default:
 				if obj := calleeObj(call); obj != nil && obj.Name() == "CurrentTrustAnchors" {
 					ks.anchors = true
+					ks.anchorAt = append(ks.anchorAt, o)
 				}
 				if c19Keyish(c19ResultType(call, o.idx)) {
 					ks.unknown = append(ks.unknown, "result of "+callDesc(call))
@@ -1060,6 +1062,37 @@ func (x *c19) checkX4() {
 					hasKey = true
 				}
 			}
+			// the trust anchors written next to the certificate are read after the
+			// issuer answered (anchors read before the request can be older than the
+			// certificate they are published with)
+			chainOf := func(in ssa.Instruction, fr *c19Frame) []ssa.Instruction {
+				out := []ssa.Instruction{in}
+				for f := fr; f != nil; f = f.parent {
+					out = append([]ssa.Instruction{f.call}, out...)
+				}
+				return out // outermost call first, the instruction itself last
+			}
+			for _, ao := range ks.anchorAt {
+				ac := chainOf(ao.v.(ssa.Instruction), ao.fr)
+				for _, rq := range reqs {
+					rc := chainOf(rq.in, rq.fr)
+					// the first level at which the two call chains part: both instructions sit in one function there
+					i := 0
+					for i < len(ac)-1 && i < len(rc)-1 && ac[i] == rc[i] {
+						i++
+					}
+					aTop, rTop := ac[i], rc[i]
+					switch {
+					case aTop.Parent() != rTop.Parent() || aTop == rTop:
+						x.undecide("%s: the order of the trust-anchor read and the issuer request is not decided (they sit in different call chains)", name)
+					case instrDominates(rTop, aTop):
+					case instrDominates(aTop, rTop), !c19CanReach(rTop, aTop) && c19CanReach(aTop, rTop):
+						badW = append(badW, "the trust anchors written with the identity are read (at "+x.pos(ao.v.(ssa.Instruction))+") BEFORE the issuer request is made: the file set pairs the new key and chain with anchors from before the request, not the current ones")
+					default:
+						x.undecide("%s: the trust-anchor read at %s is not ordered with the issuer request on every path", name, x.pos(ao.v.(ssa.Instruction)))
+					}
+				}
+			}
 			switch {
 			case len(badW) > 0:
 				r.Violation("C19.X4-fresh-key", construct, x.pos(wr.in), strings.Join(c19Dedup(badW), "; "))
@@ -1276,6 +1309,19 @@ func c19IsContent(t types.Type) bool {
 		return c19IsContent(u.Elem())
 	case *types.Pointer:
 		return c19IsContent(u.Elem())
+	}
+	return false
+}
+
+// c19CanReach: instruction b can execute after instruction a (same function).
+func c19CanReach(a, b ssa.Instruction) bool {
+	if a.Block() == b.Block() && instrIndex(a) < instrIndex(b) {
+		return true
+	}
+	for _, s := range a.Block().Succs {
+		if reachableFrom(s, nil)[b.Block()] {
+			return true
+		}
 	}
 	return false
 }
